@@ -1349,11 +1349,15 @@ class Process(StateMachine, persistence.Savable, metaclass=ProcessStateMachineMe
         """
         assert not self.has_terminated(), 'Cannot step, already terminated'
 
-        if self.paused and self._paused is not None:
-            await self._paused
+        while self._paused is not None:
+            paused = self._paused
+            await paused
             if self.has_terminated():
                 # Killed (or failed) while paused, there is nothing left to step
                 return
+            if self._paused is paused:
+                break
+            # Otherwise it was played, but possibly paused again before we got here: check again
 
         try:
             self._stepping = True
